@@ -324,7 +324,8 @@ def masks_equal(this, other, this_grid=None, other_grid=None):
         return False
     # mask shape is grid specific (reversed axes, decreasing axis)
     if this_grid is None or other_grid is None:
-        return True
+        # without both grids the layouts can't be told apart: compare the masks as given
+        return np.shape(this) == np.shape(other) and bool(np.all(this == other))
     this = this_grid.to_canonical(this)
     other = other_grid.to_canonical(other)
     if not np.all(np.shape(this) == np.shape(other)):
